@@ -89,6 +89,10 @@ pub struct CostCase {
     pub pattern: u8,
     pub bulk: CBulk,
     pub steps: Vec<(COp, CTarget, CPrio)>,
+    /// instead of the above: a long script on a big queue (huge.rs) in which every public call is
+    /// bounded, preceded and interleaved by semantically neutral operations
+    #[serde(default)]
+    pub script: Option<crate::huge::HugeCase>,
 }
 impl CostCase {
     pub fn n(&self) -> usize {
@@ -162,7 +166,7 @@ pub fn cost_strategy(thorough: bool) -> BoxedStrategy<CostCase> {
         1 => Just(CBulk::Clone),
         1 => Just(CBulk::Drain),
     ];
-    (
+    let plain = (
         proptest::sample::select(vec![Kind::PQ, Kind::DPQ]),
         // sizes weighted towards the large end, where the bound separates log from linear
         prop_oneof![1 => 2u8..8, 2 => 8u8..12, 4 => 12u8..(max_exp + 1)],
@@ -172,8 +176,23 @@ pub fn cost_strategy(thorough: bool) -> BoxedStrategy<CostCase> {
         vec((op, target, prio), 1..40),
         prop_oneof![6 => Just(0u8), 1 => Just(1u8), 1 => Just(2u8), 1 => Just(3u8), 1 => Just(4u8)],
     )
-        .prop_map(|(kind, n_exp, jitter, pattern, bulk, steps, prefix)| CostCase { prefix, kind, n_exp, jitter, pattern, bulk, steps })
-        .boxed()
+        .prop_map(|(kind, n_exp, jitter, pattern, bulk, steps, prefix)| CostCase { prefix, kind, n_exp, jitter, pattern, bulk, steps, script: None });
+    let script_sizes: Vec<usize> = if thorough {
+        vec![1023, 1024, 1025, 2047, 2048, 2049, 3000, 4095, 4096, 4097, 8191, 8192, 8193, 16384, 20000, 32767, 32768, 32769, 65535, 65536, 65537, 131071, 131072, 131073, 262145]
+    } else {
+        vec![1023, 1024, 1025, 2047, 2048, 2049, 3000, 4095, 4096, 4097, 8191, 8192, 8193, 16384, 20000, 32767, 32768, 32769]
+    };
+    let script = (proptest::sample::select(vec![Kind::PQ, Kind::DPQ]), proptest::sample::select(script_sizes), 0u8..4, any::<u64>(), 0u16..1024).prop_map(|(kind, n, pattern, seed, prelude)| CostCase {
+        prefix: 0,
+        kind,
+        n_exp: (usize::BITS - 1 - n.leading_zeros()) as u8,
+        jitter: 0,
+        pattern,
+        bulk: CBulk::None,
+        steps: vec![],
+        script: Some(crate::huge::HugeCase { huge: true, kind, n, pattern, seed: seed % 1000, cost: true, prelude }),
+    });
+    prop_oneof![48 => plain, 1 => script].boxed()
 }
 
 thread_local! {
@@ -583,6 +602,34 @@ fn cost_run<Q: Queue + 'static>(c: &CostCase, stats: &mut Stats, maxima: Option<
 
 pub fn cost_verdict(c: &CostCase, stats: &mut Stats) -> SVerdict {
     disarm_fuse();
+    if let Some(h) = c.script.as_ref() {
+        let r = std::panic::catch_unwind(std::panic::AssertUnwindSafe(|| crate::huge::huge_verdict(h)));
+        return match r {
+            Ok(Ok(())) => {
+                stats.hit("cost_script");
+                stats.hit("cost_single_large");
+                stats.hit("cost_bulk_large");
+                stats.max_size = h.n;
+                SVerdict::Pass(true)
+            }
+            // only the comparison counts are this property's business; any other failure of the
+            // script belongs to C01-C03/C06/C08 and is reported by their runs of the same scripts
+            Ok(Err(f)) if f.group == Group::Cap && f.detail.contains("priority comparisons") => SVerdict::Fail(f),
+            Ok(Err(_)) => {
+                stats.hit("cost_script_foreign_failure");
+                SVerdict::Pass(false)
+            }
+            Err(_) => {
+                let (msg, loc) = last_panic();
+                if crate::runner::is_harness_location(&loc) {
+                    SVerdict::HarnessBug(format!("{} @ {}", msg, loc))
+                } else {
+                    stats.hit("cost_script_foreign_failure");
+                    SVerdict::Pass(false)
+                }
+            }
+        };
+    }
     let r = std::panic::catch_unwind(std::panic::AssertUnwindSafe(|| match c.kind {
         Kind::PQ => cost_run::<PqHb>(c, stats, None),
         Kind::DPQ => cost_run::<DpqHb>(c, stats, None),
